@@ -4,10 +4,12 @@
    arbitrary and mutated comment texts through the real parse_comment_blocks (no exception, sibling
    blocks kept, malformed annotations not half-applied), every diagnostic's file/line/quoted
    line/caret checked against the source, counts with and without display compared. *)
-From Coq Require Import List Arith NArith Bool.
+From Coq Require Import List Arith NArith Bool String.
 From GIV.Lib Require Import Regex Str.
-From GIV.Model Require Import C02 C10 C11.
-From GIV.Proofs Require Import C10 C11.
+From GIV.Lib Require Import Backtrack.
+From GIV.Gen Require Import BlockRegex.
+From GIV.Model Require Import C02 C10 C11 C10B C11B.
+From GIV.Proofs Require Import C10 C11 C11B.
 Import ListNotations.
 
 (* every diagnostic is counted whether or not it is displayed, so a warnings-as-errors run fails
@@ -32,3 +34,41 @@ Theorem C11_caret_within_field : forall fields e idx,
   parse_groups fields = GErr e idx -> fields <> [] -> (idx < List.length fields)%nat.
 Proof. exact error_index_in_field. Qed.
 Print Assumptions C11_caret_within_field.
+
+(* ---- the block-level model (Model/C10B.v: parse_comment_block with its regular expressions translated from the source,
+   tied to the real parser by harness/c10b.py)
+
+   In a comment whose opening and closing tokens stand alone on their lines, EVERY diagnostic of the parse phase
+   - names a line of the comment (lineno + k for a k below the number of lines), and
+   - when it quotes a line, quotes exactly the k-th source line and keeps its caret within it,
+   or stands on a line that carries a deprecated tag-style annotation (reported by diagnostic 13 on that same line), for which
+   the property claims the line number only.  `placed` and `quoted_ok` are Model/C11B.v. *)
+Theorem C11_diagnostics_placed : forall comment lineno,
+  let lines := split_breaks comment in
+  let o := parse_block comment lineno in
+  (forall cs, bmatch re_start (hd [] lines) = Some cs -> nonempty (gtext g_start_comment (hd [] lines) cs) = false) ->
+  (forall ce, bmatch re_end (last (tl lines) []) = Some ce -> nonempty (gtext g_end_comment (last (tl lines) []) ce) = false) ->
+  Forall (placed lineno lines (o_diags o)) (o_diags o).
+Proof. exact parse_block_diagnostics_placed. Qed.
+Print Assumptions C11_diagnostics_placed.
+
+(* the hypotheses are met and the conclusion says something: a comment with three diagnosed lines *)
+Example C11_diagnostics_placed_nonvacuous :
+  let comment := s "/**
+ * foo_bar: (skip
+ * @p: (out) no colon
+ *
+ * Returns: (transfer full) (transfer none): x
+ */"%string in
+  (forall cs, bmatch re_start (hd [] (split_breaks comment)) = Some cs ->
+     nonempty (gtext g_start_comment (hd [] (split_breaks comment)) cs) = false)
+  /\ (forall ce, bmatch re_end (last (tl (split_breaks comment)) []) = Some ce ->
+        nonempty (gtext g_end_comment (last (tl (split_breaks comment)) []) ce) = false)
+  /\ map (fun d => (dg_code d, dg_line d, dg_col d)) (o_diags (parse_block comment 10))
+     = [(26, 11, Some 16); (28, 12, Some 12); (27, 14, Some 42)]%nat.
+Proof.
+  cbv zeta. split; [|split].
+  - intros cs H. vm_compute in H. injection H as <-. vm_compute. reflexivity.
+  - intros ce H. vm_compute in H. injection H as <-. vm_compute. reflexivity.
+  - vm_compute. reflexivity.
+Qed.
